@@ -156,7 +156,14 @@ class Compiler:
         params = node.get("params", [])
         fname = bkey if self.decorators else f"i_{bkey}"
         is_async = bool(node.get("async_handler", False))
-        if is_async:
+        if node.get("async_handler") == "wrapped":
+            # a plain callable that returns an awaitable (sync function delegating to an async service)
+            src = (
+                f"async def {fname}__inner({_sig(params)}):\n    _uid = 'uid:{bkey}'\n    return await rt.aint_body('{bkey}', {_argdict(params)})\n"
+                f"def {fname}({_sig(params)}):\n    return {fname}__inner({', '.join(p['name'] + '=' + p['name'] for p in params)})\n"
+            )
+            is_async = "wrapped"
+        elif is_async:
             src = f"async def {fname}({_sig(params)}):\n    _uid = 'uid:{bkey}'\n    return await rt.aint_body('{bkey}', {_argdict(params)})\n"
         else:
             src = f"def {fname}({_sig(params)}):\n    _uid = 'uid:{bkey}'\n    return rt.int_body('{bkey}', {_argdict(params)})\n"
